@@ -48,6 +48,19 @@ def make_shape(shape, n, pattern):
         nodes.append(('Z', pattern[2 % len(pattern)]))
         for i in range(n - 2):
             edges.append(('Z', 'M%05d' % i))
+    elif shape == 'etail':
+        # one producing job and below it a layered tail of Ephemerals nobody consumes (pruned at startup)
+        w, d = n
+        nodes.append(('R', pattern[0] if pattern[0] != 'Ephemeral' else 'Output'))
+        for k in range(d):
+            for i in range(w):
+                nodes.append(('T%03d_%03d' % (k, i), 'Ephemeral'))
+        for i in range(w):
+            edges.append(('T000_%03d' % i, 'R'))
+        for k in range(1, d):
+            for i in range(w):
+                for i2 in range(w):
+                    edges.append(('T%03d_%03d' % (k, i), 'T%03d_%03d' % (k - 1, i2)))
     else:
         raise ValueError(shape)
     # the last job of a graph must not be an Ephemeral nobody needs, or whole tails are pruned: keep as given (that
